@@ -1,0 +1,42 @@
+//go:build verif
+// +build verif
+
+// Read-only exports for the /verif correspondence harness (build tag verif). Nothing here is
+// compiled into PD.
+package tso
+
+import (
+	"time"
+
+	"github.com/tikv/pd/pkg/typeutil"
+)
+
+func verifOracle(a Allocator) *timestampOracle {
+	switch x := a.(type) {
+	case *GlobalTSOAllocator:
+		return x.timestampOracle
+	case *LocalTSOAllocator:
+		return x.timestampOracle
+	}
+	return nil
+}
+
+// VerifState returns the allocator's memory: physical (UnixNano, valid only if initialized), logical,
+// lastSavedTime (UnixNano, valid only if hasSaved).
+func VerifState(a Allocator) (physical int64, initialized bool, logical int64, lastSaved int64, hasSaved bool) {
+	t := verifOracle(a)
+	t.tsoMux.RLock()
+	p, l := t.tsoMux.physical, t.tsoMux.logical
+	t.tsoMux.RUnlock()
+	if p != typeutil.ZeroTime {
+		physical, initialized = p.UnixNano(), true
+	}
+	logical = l
+	if v := t.lastSavedTime.Load(); v != nil {
+		lastSaved, hasSaved = v.(time.Time).UnixNano(), true
+	}
+	return
+}
+
+// VerifSetMaxRetry sets getTS's retry bound (a package variable that the failpoint skipRetryGetTS also sets).
+func VerifSetMaxRetry(n int) { maxRetryCount = n }
